@@ -112,9 +112,34 @@ VARIANTS = {
 }
 
 
+def tenant_model_text(kind):
+    """the same model with the domain column called "tenant" in the request and policy definitions (no token name is
+    special to the matcher: r.tenant == p.tenant and g(r.sub, p.sub, r.tenant) say how the column is used)"""
+    t = kind.model_text()
+    assert "r.dom == p.dom" in t
+    return t.replace("dom", "tenant")
+
+
+def fast_kwargs(order):
+    """a FastEnforcer whose rule index is keyed by the two given policy positions (same driver as C19 stratum C)"""
+    from casbin.model.model_fast import FastModel
+    order = list(order)
+    return dict(enforcer_cls=casbin.FastEnforcer, enforcer_kwargs=dict(cache_key_order=order),
+                model_factory=lambda: FastModel(order), sort_p=True)
+
+
+# admissible index keys of the domain model p = sub, dom, obj, act: two distinct fields the matcher compares by
+# equality with the same request position (dom = 1, obj = 2, act = 3; sub goes through g())
+FAST_ORDERS = [(2, 1), (2, 3), (3, 1), (1, 2), (3, 2), (1, 3)]
+
+
 def impl_kwargs_for(kind, variant):
     if variant == "pdom":
         return dict(model_text=pdom_model_text(kind))
+    if variant == "tenant":
+        return dict(model_text=tenant_model_text(kind))
+    if variant.startswith("fast-"):
+        return fast_kwargs([int(x) for x in variant[5:]])
     return dict(VARIANTS[variant])
 
 
@@ -215,6 +240,222 @@ def stratum_confusable_names(chk, n):
     chk.extra.setdefault("strata", {})["confusable_names"] = cnt
 
 
+# ----------------------------------------------------------------------------- state BUILT by management calls
+# The strata above start from a loaded store and apply foreign calls with fresh random arguments.  Here the state
+# before the foreign changes is itself the result of a management history over BOTH domains (rules added, removed
+# and updated through the API, so that positions, indexes and caches have a past), the foreign calls aim at rules
+# that ARE recorded for the foreign domain, and "anything recorded for other domains" also changes in the STORE:
+# rows of the foreign domain written or deleted behind the enforcer's back followed by a reload - accepted, or
+# refused because the foreign record is malformed or the adapter fails.  None of this touches a record of D.
+PREFIX_W = dict(p_add=8, p_add_many=4, p_remove=2, p_remove_many=1, p_remove_filtered=1, p_update=1.5, p_update_many=1,
+                p_update_filtered=0, g_add=5, g_add_many=2, g_remove=1, g_remove_many=0.5, g_remove_filtered=0.5, rbac=2,
+                clear=0, load=0.5, save=0.5, build=0.3, flags=0, query=2, probe=0)
+
+
+def _mentioned(kind, rows, ops, F):
+    """p and g rules of domain F that the rows or an adding call of the prefix mention (targets of the foreign calls)"""
+    ps, gs = [], []
+
+    def see(pt, r):
+        if pt == 0 and len(r) == kind.p_arity and r[kind.i_dom] == F and r not in ps:
+            ps.append(list(r))
+        if pt == 1 and len(r) == 3 and r[2] == F and r not in gs:
+            gs.append(list(r))
+    for pt, r in rows:
+        see(pt, r)
+    for op in ops:
+        if op[0] == 1:
+            see(op[1], op[2])
+        elif op[0] == 2:
+            for r in op[2]:
+                see(op[1], r)
+        elif op[0] == 6:
+            see(0, op[2])
+        elif op[0] == 7:
+            for r in op[2]:
+                see(0, r)
+        elif op[0] == 13:
+            see(0, [op[1]] + list(op[2]))
+        elif op[0] == 19:
+            see(1, [op[1], op[2], op[3]])
+    return ps, gs
+
+
+def foreign_ops_aimed(rng, kind, uni, F, ps, gs, store, n_rows):
+    """one foreign step (a list of ops): a management call aimed at what is recorded for F, or a store-side change
+    of F followed by a reload"""
+    def p(known=0.6):
+        if ps and rng.random() < known:
+            return list(rng.choice(ps))
+        r = uni.p_rule(rng)
+        r[kind.i_dom] = F
+        if r not in ps:
+            ps.append(r)
+        return r
+
+    def g(known=0.6):
+        if gs and rng.random() < known:
+            return list(rng.choice(gs))
+        r = uni.g_rule(rng)
+        r[2] = F
+        if r not in gs:
+            gs.append(r)
+        return r
+    names = ["p_add", "p_add_many", "p_rm", "p_rm", "p_rm_many", "p_rm_f", "p_upd", "p_upd", "p_upd_many", "g_add", "g_add_many",
+             "g_rm", "g_rm", "g_rm_many", "g_rm_f", "role_in_dom", "del_roles_in_dom", "perm", "q"]
+    if store:
+        names += ["st_add_p", "st_add_g", "st_del", "st_bad_g", "st_bad_g", "st_heal", "reload", "reload_fail"]
+    c = rng.choice(names)
+    if c == "p_add":
+        return [(1, 0, p(0.2))]
+    if c == "p_add_many":
+        return [(2, 0, [p(0.2) for _ in range(rng.randint(1, 3))])]
+    if c == "p_rm":
+        return [(3, 0, p(0.85))]
+    if c == "p_rm_many":
+        return [(4, 0, [p(0.85) for _ in range(rng.randint(1, 2))])]
+    if c == "p_rm_f":
+        return [(5, 0, kind.i_dom, [F] + ([rng.choice(uni.objs)] if rng.random() < 0.7 else []))]
+    if c == "p_upd":
+        return [(6, p(0.85), p(0.15))]
+    if c == "p_upd_many":
+        k = rng.randint(1, 2)
+        return [(7, [p(0.85) for _ in range(k)], [p(0.1) for _ in range(k)])]
+    if c == "perm":
+        r = p(0.5)
+        return [(rng.choice([13, 14]), r[0], r[1:])]
+    if c == "g_add":
+        return [(1, 1, g(0.2))]
+    if c == "g_add_many":
+        return [(2, 1, [g(0.2) for _ in range(rng.randint(1, 3))])]
+    if c == "g_rm":
+        return [(3, 1, g(0.85))]
+    if c == "g_rm_many":
+        return [(4, 1, [g(0.85) for _ in range(rng.randint(1, 2))])]
+    if c == "g_rm_f":
+        return [(5, 1, 2, [F])] if rng.random() < 0.5 else [(5, 1, 0, [rng.choice(uni.subs), 0, F])]
+    if c == "role_in_dom":
+        r = g(0.3)
+        return [(19, r[0], r[1], F)]
+    if c == "del_roles_in_dom":
+        r = g(0.8)
+        return [(20, r[0], r[1], F)]
+    pos = rng.randint(0, n_rows + 4)
+    if c == "st_add_p":
+        return [(40, 0, p(0.2), pos), (31,)]
+    if c == "st_add_g":
+        return [(40, 1, g(0.2), pos), (31,)]
+    if c == "st_del":
+        return [(41, 0, p(0.9)), (31,)] if rng.random() < 0.5 else [(41, 1, g(0.9)), (31,)]
+    if c == "st_bad_g":
+        # a role-assignment record of F with one column missing: the reload is refused while building the role links
+        r = g(0.3)
+        k = rng.randrange(3)
+        return [(40, 1, r[:k] + r[k + 1:], pos), (31,)]
+    if c == "st_heal":
+        # every malformed record a st_bad_g step may have written is deleted again, then a reload
+        return [(41, 1, list(t)) for t in sorted({tuple(r[:k] + r[k + 1:]) for r in gs for k in range(3)})][:12] + [(31,)]
+    if c == "reload":
+        return [(31,)]
+    if c == "reload_fail":
+        return [(32, rng.randint(0, n_rows + 2))]
+    return [rng.choice([(50, [rng.choice(uni.subs), F, rng.choice(uni.objs), rng.choice(uni.acts)]),
+                        (57, rng.choice(uni.subs), F), (60, rng.choice(uni.subs), F), (70, rng.choice(uni.subs), F)])]
+
+
+def make_case_built(rng, kind, store):
+    uni = mgmt.Universe(kind)
+    D, F = (A("d1"), A("d2")) if rng.random() < 0.5 else (A("d2"), A("d1"))
+    gen = mgmt.Gen(rng, kind, PREFIX_W)
+    rows = gen.rows(rng.randint(1, 8))
+    prefix = gen.history(rng.randint(2, 10), final_probe=False)
+    probe = d_probe(kind, uni, D)
+    ps, gs = _mentioned(kind, rows, prefix, F)
+    ops = prefix + probe
+    for _ in range(rng.randint(1, 8)):
+        ops += foreign_ops_aimed(rng, kind, uni, F, ps, gs, store, len(rows))
+        if rng.random() < 0.3:
+            ops += probe
+    ops += probe
+    return rows, D, F, probe, ops
+
+
+def spec_check_built(D, probe, sort_rules=False):
+    """every query of the D-probe that is repeated after the first complete probe block gives the result it gave in that
+    block (everything behind the block touches only the other domain), and scoped queries only mention D.  Works on
+    truncated and shrunk histories: the queries behind the block are looked up one by one."""
+    plen = len(probe)
+    keys = {repr(tuple(op)) for op in probe}
+
+    def canon(op, res):
+        if sort_rules and op[0] == 70 and res[0] == 0:
+            return [0, sorted(res[1])]          # a FastEnforcer lists rules in index order, not in insertion order
+        return res
+
+    def spec_check(kind, rows, lf, ops, obs, impl):
+        n = len(ops)
+        # (b) wherever a scoped query of D occurs (also in a truncated first block)
+        for i, op in enumerate(ops):
+            res = obs[i][0]
+            if op[0] in (70, 61, 64) and res[0] == 0 and repr(tuple(op)) in keys:
+                for rule in res[1]:
+                    if rule[kind.i_dom] != D:
+                        return [(i, "a domain-scoped query reports a rule recorded for another domain")]
+        # (a)
+        i0 = next((i for i in range(n - plen + 1) if list(ops[i:i + plen]) == list(probe)), None)
+        if i0 is None:
+            return []
+        ref = {repr(tuple(op)): canon(op, obs[i0 + k][0]) for k, op in enumerate(probe)}
+        for i in range(i0 + plen, n):
+            op = ops[i]
+            k = repr(tuple(op))
+            if k in keys and canon(op, obs[i][0]) != ref[k]:
+                return [(i, "a query in domain D changed after calls that touch only other domains")]
+        return []
+    return spec_check
+
+
+def stratum_built(chk, kind, variant, n, store, label):
+    rng = chk.rng
+    kw = impl_kwargs_for(kind, variant)
+    with_model = variant in ("plain", "pdom", "rolematcher") and not store
+    cases = []
+    for _ in range(n):
+        rows, D, F, probe, ops = make_case_built(rng, kind, store)
+        sc = spec_check_built(D, probe, sort_rules=variant.startswith("fast-"))
+        sc.case_extra = dict(variant=variant, layout="built", D=D, model_compared=with_model)
+        cases.append((rows, True, ops, sc))
+    mgmt.run_cases(chk, kind, cases, None, label=label, impl_kwargs=kw, compare_model=with_model,
+                   key_fn=lambda k, r, o, v=variant: (k.name, v, "built", repr(r), repr([x for x in o if x[0] < 50])))
+    chk.extra.setdefault("strata", {})[label.replace("-", "_")] = len(cases)
+
+
+def run_built(chk, n):
+    """n = size of the largest stratum"""
+    dom = mgmt.KINDS["dom"]
+    stratum_built(chk, dom, "plain", n, False, "built-dom")
+    stratum_built(chk, dom, "plain", n, True, "built-store-dom")
+    stratum_built(chk, mgmt.KINDS["dom_deny"], "plain", max(30, n // 3), True, "built-store-dom_deny")
+    stratum_built(chk, dom, "tenant", max(40, n // 2), True, "built-store-dom-tenant")
+    stratum_built(chk, dom, "pdom", max(30, n // 4), False, "built-dom-pdom")
+    for o in FAST_ORDERS:
+        v = "fast-%d%d" % o
+        stratum_built(chk, dom, v, max(25, n // 4), False, f"built-dom-{v}")
+    # the original layout (loaded store, fresh foreign arguments) on the new model variants
+    rng = chk.rng
+    for variant in ["tenant"] + ["fast-%d%d" % o for o in FAST_ORDERS[:3]]:
+        kw = impl_kwargs_for(dom, variant)
+        cases = []
+        for _ in range(max(20, n // 5)):
+            rows, D, F, probe, ops = make_case(rng, dom)
+            sc = spec_check_built(D, probe, sort_rules=variant.startswith("fast-"))
+            sc.case_extra = dict(variant=variant, layout="built", D=D, model_compared=False)
+            cases.append((rows, True, probe + ops, sc))
+        mgmt.run_cases(chk, dom, cases, None, label=f"foreign-dom-{variant}", impl_kwargs=kw, compare_model=False,
+                       key_fn=lambda k, r, o, v=variant: (k.name, v, repr(r), repr([x for x in o if x[0] < 50])))
+        chk.extra["strata"][f"foreign_dom_{variant.replace('-', '_')}"] = len(cases)
+
+
 def run(chk, n):
     rng = chk.rng
     stratum_confusable_names(chk, max(60, n // 2))
@@ -240,6 +481,7 @@ def run(chk, n):
         mgmt.run_cases(chk, kind, cases, None, label=f"foreign-dom-{variant}", impl_kwargs=kw,
                        key_fn=lambda k, r, o, v=variant: (k.name, v, repr(r), repr([x for x in o if x[0] < 50])))
         chk.extra["strata"][f"foreign_dom_{variant}"] = len(cases)
+    run_built(chk, max(100, (n * 3) // 5))
 
 
 def replay(chk):
@@ -248,6 +490,15 @@ def replay(chk):
     c = rec.get("case") or {}
     if "ops" not in c:
         return mgmt.replay_case(chk, None)
+    if c.get("layout") == "built":
+        w = c["kind_wire"]
+        kind = mgmt.Kind(c["kind"], *[bool(x) for x in w[:5]], eff=w[5], adapter=bool(w[6]), watcher=w[7])
+        variant = c.get("variant", "plain")
+        if not c.get("model_compared"):
+            chk.oracle = None                # store-side ops / index order / renamed column are outside the Mgmt model
+        return mgmt.replay_case(chk, spec_check_built(c["D"], d_probe(kind, mgmt.Universe(kind), c["D"]),
+                                                      sort_rules=variant.startswith("fast-")),
+                                impl_kwargs=impl_kwargs_for(kind, variant))
     # recover D and the probe from the recorded history: the probe is its maximal query suffix
     ops = [tuple(o) for o in c["ops"]]
     D = next((o[1][1] for o in ops if o[0] == 50), A("d1"))
@@ -279,6 +530,12 @@ def main():
                 "call; distinct by (rows, foreign calls)")
     chk.rule += ("; the same on two variants of the domain model: the rule's domain handed to g() (g(r.sub,p.sub,p.dom)), and "
                  "a role-name matching function registered that relates no two role names but the domain names")
+    chk.rule += ("; built-state strata: the state before the foreign calls is the result of a management history over both "
+                 "domains (API adds/removes/updates), the foreign calls aim at rules recorded for the other domain, and the "
+                 "other domain also changes in the store (rows written/deleted out of band, then a reload that is accepted, "
+                 "or refused because the foreign record lacks a column or the adapter fails); run on the plain Enforcer, on "
+                 "a model whose domain column is called 'tenant', and on a FastEnforcer under every admissible index key "
+                 "order; every D-query repeated after the first probe block must repeat its result")
     chk.assumptions = ["no domain-matching function registered (domain patterns are C14)",
                        "calls that are not domain-scoped by construction (delete_user, delete_role, clear_policy) are not 'calls "
                        "touching only other domains'"]
